@@ -493,7 +493,7 @@ func runC03(c *Ctx) {
 	// Mode T: concurrent mixes on one strategy
 	for _, lookup := range []bool{true, false} {
 		for _, progs := range [][]string{{"a", "b", "R"}, {"aR", "bR"}, {"a", "z", "2"}, {"aR", "1", "b"}, {"a", "a"}, {"a", "a", "b"}, {"z", "z"}, {"b", "b", "a"}, {"a", "aR"}} {
-			c.Explore(c03Concurrent(lookup, 2, progs), mc.Options{PreemptBound: c.Pick(3, 4)})
+			c.Explore(c03Concurrent(lookup, 2, progs), mc.Options{PreemptBound: c.Pick(3, 4), NoCache: true})
 		}
 	}
 }
